@@ -30,7 +30,7 @@ type MCall struct {
 	Node int
 	Kind string // test pt custom pre
 	Idx  int
-	Must bool // must have run (false: may or may not)
+	Must bool   // must have run (false: may or may not)
 	Arg  string // canonical argument value when the model knows it ("" unknown)
 }
 
@@ -49,15 +49,15 @@ type MNode struct {
 }
 
 type Model struct {
-	Mode    string // parse | validate
-	Source  string // tag consulted first: "" | json | form | query | env
-	Visits  []simrt.Visit
-	vpos    int
-	Desync  bool
+	Mode         string // parse | validate
+	Source       string // tag consulted first: "" | json | form | query | env
+	Visits       []simrt.Visit
+	vpos         int
+	Desync       bool
 	OrderUnknown bool // the field visit order of the real execution is not observable
-	Issues  []MIssue
-	Nodes   []*MNode
-	Abstain []string
+	Issues       []MIssue
+	Nodes        []*MNode
+	Abstain      []string
 	// PostTransform / callback expectations
 	Forbid []MCall // must NOT have been called
 	Expect []MCall // Must: must have been called exactly once per visit (in order for pts)
@@ -106,7 +106,8 @@ func validateAbsent(n *Node, in MIn) bool {
 	case "bool":
 		return v.K == "b" && !v.B
 	case "time":
-		return v.K == "t" && MustTime(v.S).IsZero()
+		// the Go zero value: the zero instant *in UTC* (another zone's rendering of that instant is a different value)
+		return v.K == "t" && MustTime(v.S).IsZero() && strings.HasSuffix(v.S, "Z")
 	case "slice":
 		return v.K == "l" && len(v.L) == 0
 	}
@@ -446,6 +447,8 @@ func setModel(dst reflect.Value, n *Node, val any) {
 		rv := reflect.ValueOf(val)
 		if rv.Type().AssignableTo(dst.Type()) {
 			dst.Set(rv)
+		} else if rv.Type().ConvertibleTo(dst.Type()) && rv.Kind() != reflect.String {
+			dst.Set(rv.Convert(dst.Type())) // model ints/floats into int64 / float32 destinations
 		}
 	case "slice":
 		l, ok := val.([]any)
@@ -650,6 +653,11 @@ func (m *Model) evalPrim(n *Node, in MIn, path string, mn *MNode) {
 			mn.Absent = true
 		} else {
 			out, ok, known := CoerceModel(n.Kind, in.V)
+			if n.Coercer == "const" && n.CoVal != nil {
+				out, ok, known = typedVal(n, *n.CoVal), true, true
+			} else if n.Coercer != "" {
+				out, ok, known = nil, false, true
+			}
 			if !known {
 				m.abstain("coercion outside the documented table: " + n.Kind + " <- " + in.V.String())
 			}
